@@ -120,6 +120,9 @@ pub fn parse_compressed_name(octets: &[u8], start: usize) -> Result<(Box<Name>, 
         let mut index = chunk_start;
 
         while !finished_with_chunk {
+            if index >= octets.len() {
+                return Err(Error::UnexpectedEom);
+            }
             let len = octets[index];
             if len & 0xc0 == 0xc0 {
                 next_chunk = Some(parse_pointer(octets, chunk_start, index)? as usize);
